@@ -390,6 +390,18 @@ def main(H, argv=None):
         info = lean_stage(ctx, H)
         try:
             H.run(ctx)
+        except (InfraError, subprocess.TimeoutExpired, MemoryError, OSError):
+            raise
+        except Exception as e:  # noqa: BLE001
+            # The harness passes on the tree it was written for, so an exception that is not an infrastructure problem means the
+            # implementation can no longer be observed the way the correspondence needs (renamed private attribute, changed
+            # signature or type of a value the harness reads): that is a correspondence that no longer checks, not exit 2.
+            tb = traceback.format_exc()
+            print(tb, file=sys.stderr)
+            ctx.count("harness:observation-failed")
+            ctx.disagree(f"the harness could not observe the implementation ({type(e).__name__}: {e}); the run stopped early",
+                         {"kind": "harness-observation-failed", "exception": f"{type(e).__name__}: {e}",
+                          "traceback_tail": tb[-1500:]})
         finally:
             for d in ctx._drivers:
                 d.close()
@@ -402,8 +414,11 @@ def main(H, argv=None):
             if hasattr(H, "search"):
                 try:
                     H.search(ctx, "; ".join(ctx.broken) or "correspondence")
-                except InfraError:
+                except (InfraError, subprocess.TimeoutExpired, MemoryError, OSError):
                     pass
+                except Exception:  # noqa: BLE001  (same reasoning as for run(): the search could not observe the tree either)
+                    print(traceback.format_exc(), file=sys.stderr)
+                    ctx.count("harness:search-observation-failed")
             search_info = {"ran": True, "cases": ctx.evaluations - ev0, "found": len(ctx.failures) - before}
     except InfraError as e:
         print(f"INFRA-ERROR {prop}: {e}", file=sys.stderr)
